@@ -48,6 +48,13 @@ const (
 	// OpBulkDel deletes up to N present keys picked the same way from the sorted present keys.
 	OpBulkIns = "bulkins"
 	OpBulkDel = "bulkdel"
+	// OpInsertMax inserts the (K mod 3 + 1)-th absent key above the largest present key (an append at the end);
+	// OpInsertMin the mirror image below the smallest present key
+	OpInsertMax = "insertmax"
+	OpInsertMin = "insertmin"
+	// OpDeleteMax / OpDeleteMin delete the largest / smallest present key
+	OpDeleteMax = "deletemax"
+	OpDeleteMin = "deletemin"
 )
 
 // bulkStrides are primes; the one used is the first that does not divide the pool size.
@@ -274,13 +281,13 @@ type OpWeights map[string]int
 var DefaultWeights = OpWeights{
 	OpInsert: 30, OpInsertNew: 30, OpUpdate: 9, OpInsertSame: 4, OpDelete: 30, OpDeleteTop: 5,
 	OpDelWrong: 3, OpDelAbsent: 3, OpGet: 8, OpSize: 2, OpIter: 3, OpIterStop: 2,
-	OpClone: 6, OpPersist: 12, OpReload: 9, OpReloadJSON: 4, OpDrain: 1,
+	OpClone: 6, OpPersist: 12, OpReload: 9, OpReloadJSON: 4, OpDrain: 1, OpInsertMax: 5, OpInsertMin: 2,
 }
 
 func weightedKinds(w OpWeights) []string {
 	var out []string
 	for _, k := range []string{OpInsert, OpInsertNew, OpUpdate, OpInsertSame, OpDelete, OpDeleteTop, OpDelWrong, OpDelAbsent,
-		OpGet, OpSize, OpIter, OpIterStop, OpClone, OpPersist, OpReload, OpReloadJSON, OpDrain, OpPersistFail, OpBulkIns, OpBulkDel} {
+		OpGet, OpSize, OpIter, OpIterStop, OpClone, OpPersist, OpReload, OpReloadJSON, OpDrain, OpPersistFail, OpBulkIns, OpBulkDel, OpInsertMax, OpInsertMin, OpDeleteMax, OpDeleteMin} {
 		for i := 0; i < w[k]; i++ {
 			out = append(out, k)
 		}
@@ -299,6 +306,9 @@ func GenProgram(t *rapid.T, w OpWeights, maxOps, nslots int) []Op {
 		switch op.Kind {
 		case OpInsert, OpInsertNew, OpUpdate:
 			op.K = rapid.IntRange(0, 63).Draw(t, "k")
+			op.V = rapid.IntRange(0, 5).Draw(t, "v")
+		case OpInsertMax, OpInsertMin:
+			op.K = rapid.IntRange(0, 2).Draw(t, "k")
 			op.V = rapid.IntRange(0, 5).Draw(t, "v")
 		case OpInsertSame, OpDelete, OpDeleteTop, OpDelAbsent, OpGet:
 			op.K = rapid.IntRange(0, 63).Draw(t, "k")
